@@ -257,7 +257,7 @@ def Nsp.getLoad (n : Nsp) (bound : List String) (name : String) : Except Err Exp
   | .class_ =>
     if bound.contains name then .ok (.name name)
     else if name == "__class__" then .ok (.name name)     -- read by a lambda written in the class body: the loader's cell
-    else if n.globalsInComp.contains name then .ok (.name name)
+    else if !bound.isEmpty && n.globalsInComp.contains name then .ok (.name name)   -- only inside a lambda / comprehension
     else match n.sym.lookup name with
       | none => .error (.keyError name)
       | some s =>
